@@ -1,8 +1,12 @@
-"""Client for the native replay binary (mt-replay run): one persistent process per profile."""
+"""Client for the native replay binary (mt-replay run): one persistent process per profile.
+Raw (unbuffered) pipes with our own line splitting, so select() never waits on data Python already
+buffered; result lines are tagged `@@RESULT ` because the crate under test prints diagnostics to
+stdout."""
 import json
 import os
 import select
 import subprocess
+import time
 
 
 class Native:
@@ -11,34 +15,54 @@ class Native:
         self.timeout = timeout
         self.p = None
         self.calls = 0
+        self.buf = b''
 
     def _start(self):
         self.p = subprocess.Popen([self.binary, 'run'], stdin=subprocess.PIPE, stdout=subprocess.PIPE,
-                                  stderr=subprocess.DEVNULL, text=True, bufsize=1)
+                                  stderr=subprocess.DEVNULL, bufsize=0)
+        self.buf = b''
+
+    def _kill(self):
+        try:
+            self.p.kill()
+            self.p.wait(timeout=2)
+        except Exception:
+            pass
+        self.p = None
+        self.buf = b''
 
     def run(self, scenario):
-        """-> dict {'ok':bool,'out':[...], 'panic':msg?} or {'hang':True}"""
+        """-> dict {'ok':bool,'out':[...], 'panic':msg?} or {'hang':True} / {'abort':True}"""
         if self.p is None or self.p.poll() is not None:
             self._start()
         self.calls += 1
+        data = (json.dumps(scenario) + '\n').encode('utf-8')
         try:
-            self.p.stdin.write(json.dumps(scenario) + '\n')
-            self.p.stdin.flush()
-        except BrokenPipeError:
+            self.p.stdin.write(data)
+        except (BrokenPipeError, OSError):
             self._start()
-            self.p.stdin.write(json.dumps(scenario) + '\n')
-            self.p.stdin.flush()
-        r, _, _ = select.select([self.p.stdout], [], [], self.timeout)
-        if not r:
-            self.p.kill()
-            self.p = None
-            return {'ok': False, 'hang': True, 'out': []}
-        line = self.p.stdout.readline()
-        if not line:
-            rc = self.p.poll()
-            self.p = None
-            return {'ok': False, 'abort': True, 'rc': rc, 'out': []}
-        return json.loads(line)
+            self.p.stdin.write(data)
+        fd = self.p.stdout.fileno()
+        deadline = time.time() + self.timeout
+        while True:
+            while b'\n' in self.buf:
+                line, self.buf = self.buf.split(b'\n', 1)
+                if line.startswith(b'@@RESULT '):
+                    return json.loads(line[9:].decode('utf-8'))
+            left = deadline - time.time()
+            if left <= 0:
+                self._kill()
+                return {'ok': False, 'hang': True, 'out': []}
+            r, _, _ = select.select([fd], [], [], left)
+            if not r:
+                self._kill()
+                return {'ok': False, 'hang': True, 'out': []}
+            chunk = os.read(fd, 1 << 16)
+            if not chunk:
+                rc = self.p.poll()
+                self._kill()
+                return {'ok': False, 'abort': True, 'rc': rc, 'out': []}
+            self.buf += chunk
 
     def close(self):
         if self.p is not None:
@@ -46,5 +70,5 @@ class Native:
                 self.p.stdin.close()
                 self.p.wait(timeout=2)
             except Exception:
-                self.p.kill()
-            self.p = None
+                pass
+            self._kill()
